@@ -1,11 +1,14 @@
 #!/bin/sh
 # usage: try_mutant.sh PATCH ID [ID...] — apply PATCH to /repo, run the quick checks, always undo.
+# Evidence files are saved and restored: evidence committed in /verif must come from the unchanged tree.
 patch=$1; shift
 cd /repo || exit 2
 git diff --quiet || { echo "/repo not clean"; exit 2; }
 git apply "$patch" || { echo "patch does not apply"; exit 2; }
+rm -rf /tmp/evidence.bak; cp -r /verif/evidence /tmp/evidence.bak
 for id in "$@"; do
   (cd /verif && ./bin/check "$id"; echo "   [$id rc=$?]")
 done
 git -C /repo checkout -- .
 git -C /repo status --short
+rm -rf /verif/evidence; mv /tmp/evidence.bak /verif/evidence
